@@ -16,3 +16,16 @@ JOBS = {
                ("_encode_length", {"length": "int"}, "tuple:int,bytes")],
     ),
 }
+
+JOBS["oscore_seqno"] = dict(
+    # sender sequence number kernels: CanProtect.new_sequence_number and FilesystemSecurityContext.post_seqnoincrease;
+    # the file-system write `self._store()` is a function parameter (cb_store : fsc -> M fsc)
+    file="aiocoap/oscore.py",
+    record=("fsc", [("sender_sequence_number", "int"), ("sequence_number_persisted", "int"),
+                    ("sequence_number_chunksize", "int"), ("sequence_number_chunksize_limit", "int")]),
+    constants=["MAX_SEQNO"],
+    callbacks=["_store"],
+    exceptions={"ContextUnavailable": "ContextUnavailable"},
+    funcs=[("post_seqnoincrease", {}, "unit", "FilesystemSecurityContext"),
+           ("new_sequence_number", {}, "int", "CanProtect")],
+)
